@@ -4,5 +4,5 @@ From FB Require Import Sem.Base Model.Fb GenEq.Tac.
 From FB Require Gen.FbGen.
 Open Scope Z_scope.
 
-Lemma gen_eq : forall SIZE, FbGen.new SIZE = Fb.new SIZE.
+Lemma gen_eq : forall SIZE chk, FbGen.new SIZE chk = Fb.new SIZE.
 Proof. gen_eq. Qed.
